@@ -180,8 +180,12 @@ fn gen_body(rng: &mut Rng, big: bool) -> String {
             let text: String = content.iter().map(|b| match b % 23 { 0 => 'é', 1 => '€', 2 => '\u{10348}', _ => (0x20 + b % 0x5f) as char }).collect();
             format!("S:{}", enc(text.as_bytes()))
         }
-        3 => format!("F:{}:{}", n, enc(&content)),
-        4 => format!("T:{}:{}", n, enc(&content)),
+        // a third of the file bodies are longer on disk than their declared length (e.g. a log that grew after `metadata()`)
+        3 | 4 => {
+            let mut actual = content.clone();
+            if rng.chance(1, 3) { let k = rng.range(1, 20) as usize; actual.extend(rng.bytes(k)); }
+            format!("{}:{}:{}", if rng.chance(1, 2) { "F" } else { "T" }, n, enc(&actual))
+        }
         _ => {
             let k = rng.below(5);
             let evs: Vec<String> = (0..k)
